@@ -222,7 +222,12 @@ func (w *World) CheckProperty(prop, tier string, timeoutMs int, dump string, ver
 			continue
 		}
 		vc := NewVC(w.P, w.C, fn, fc)
-		if err := vc.Generate(); err != nil {
+		tg := time.Now()
+		err := vc.Generate()
+		if os.Getenv("GVC_SLOW") != "" && time.Since(tg) > 500*time.Millisecond {
+			fmt.Printf("TIMING generate %s %.1fs (%d constraints)\n", n, time.Since(tg).Seconds(), len(vc.cons))
+		}
+		if err != nil {
 			// the contract no longer fits the code (a name it uses is gone, a site moved out of scope ...):
 			// every clause of this function is undecided, which is reported as a failed binding obligation
 			o := &Obligation{Name: n + "/contract-binding#0", Func: n, Kind: "contract-binding", Tags: []string{prop}, Status: "failed",
